@@ -89,6 +89,20 @@ def run(ctx):
         else:
             gu.append(dict(x=[[v * 0.125 for v in row] for row in rows_q], q=rows_q, dtype="float32", scale=0.125,
                            nodata=None, exhaustive=False))
+    # the full int16 range: differences of two samples exceed 32767 (int16 arithmetic on the samples would wrap)
+    for _ in range(24 if ctx.thorough else 8):
+        n = int(rng.integers(3, 60))
+        rows_q = []
+        for _r in range(3):
+            kind = rng.random()
+            if kind < 0.4:
+                q = rng.integers(-32000, 32001, size=n)
+            elif kind < 0.7:
+                q = np.linspace(-31000, 31000, n).round() + rng.integers(-500, 500, size=n)
+            else:
+                q = rng.choice([-32768, -30000, 0, 30000, 32767], size=n)
+            rows_q.append([int(v) for v in np.clip(q, -32768, 32767)])
+        gu.append(dict(x=rows_q, q=rows_q, dtype="int16", scale=1.0, nodata=None, exhaustive=False))
     # nodata wrapper: mixed pixels and all-nodata pixels, several nodata values incl. 0
     for nd in (-9999, 0, 255, -1):
         n = int(rng.integers(3, 30))
